@@ -1,8 +1,8 @@
 SPECIFICATION Spec
 CONSTANTS
-  Sessions = {"M1"}
-  Legacy = {}
-  InitOn = {"M1"}
+  Sessions = {"L1", "M1"}
+  Legacy = {"L1"}
+  InitOn = {}
   InitSub = {}
   Kinds = {"tools"}
   NotifOf <- NotifStd
@@ -10,29 +10,29 @@ CONSTANTS
   Want <- WantAll
   CapOff = {}
   CapMode <- ModeInferred
-  InitSize <- Size3
-  MaxSize = 3
-  Dirs = {"mod"}
+  InitSize <- Size1
+  MaxSize = 2
+  Dirs = {"add", "rm", "clear"}
   SendGate = "configured"
-  TTLPos = TRUE
+  TTLPos = FALSE
   D = 0
   MaxTime = 0
-  MaxChanges = 2
+  MaxChanges = 4
   MaxUpdates = 0
-  MaxCalls = 2
-  NPages = 2
+  MaxCalls = 0
+  NPages = 1
   ListenOwns = TRUE
   ResubRace = TRUE
   GenCheck = TRUE
   ColdBump = TRUE
   ModernUnsub = FALSE
-  ForeignUnsub = FALSE
+  ForeignUnsub = TRUE
   Listeners = {}
   MaxListens = 0
   FailUndo = TRUE
   Stepwise = FALSE
   Gates = FALSE
   GateNames = {"inv", "usr", "put"}
-  ClientFirst = FALSE
+  ClientFirst = TRUE
 INVARIANTS TypeOK NeverLost OnlyEntitled NoneWhenDisabled UpdatedExactlySubscribers Fresh ForgottenOnClose MapsOnlySessions
 CHECK_DEADLOCK FALSE
